@@ -1,6 +1,7 @@
 """C11 — invalid group elements and scalars are never accepted (DESIGN section 5, C11)."""
 import json
 import core
+import re
 import interp
 from terms import *  # noqa
 from rules.common import *  # noqa
@@ -48,6 +49,9 @@ def from_params_only(t, params):
         return True
     if t[0] == 'app' and t[1] == 'KeGroup::public_key':
         return from_params_only(t[2][0], params)
+    if t[0] == 'fld':
+        # a field of a parameter (a private helper struct / tuple / captured variable of a closure handed in by the caller)
+        return from_params_only(t[1], params)
     return False
 
 
@@ -191,6 +195,22 @@ def run(ctx):
             private = not str(body.get('vis', 'Public')).startswith('Public')
             callers = [c for c in g['bodies'] if c is not b and any(
                 (not bb['cleanup']) and bb['term'].get('k') == 'call' and bb['term']['callee'].get('dpath') == b.get('dpath') for bb in c['blocks'])]
+            if '::{closure' in b['path']:
+                # a closure is code of the function that defines it (the interpreter runs it where that function applies it)
+                parent = b['path'].split('::{closure')[0]
+                callers = [c for c in g['bodies'] if c['path'] == parent]
+                private = True
+            elif b.get('impl_trait_dpath') in ('core::convert::From', 'core::convert::Into', 'core::convert::TryFrom') and not callers:
+                # a conversion FROM a crate-private type cannot be called from outside the crate: it is a private helper, judged where
+                # the crate converts (`From::from(x)` / `x.into()` with that source type)
+                m = re.search(r'(?:From|Into|TryFrom)<([A-Za-z_:0-9]+)', b['path'])
+                src = m.group(1) if m else None
+                src_adt = [a for a in g['adts'] if a['path'] == src]
+                if src_adt and 'Restricted' in str(src_adt[0].get('vis', 'Public')):
+                    private = True
+                    callers = [c for c in g['bodies'] if c is not b and any(
+                        (not bb['cleanup']) and bb['term'].get('k') == 'call' and bb['term']['callee'].get('trait_dpath') in ('core::convert::From', 'core::convert::Into', 'core::convert::TryFrom', 'core::convert::TryInto')
+                        and any(str(a).startswith(src) for a in (bb['term']['callee'].get('args') or [])) for bb in c['blocks'])]
             for e in evs:
                 val = e[-1]
                 payload = dict(val[3]).get('0') if (val is not None and val[0] == 'adt') else None
@@ -203,7 +223,9 @@ def run(ctx):
                 n_sites += int(good)
                 rep.ob('R11.1', '%s: payload of %s comes from a validating source [%s]' % (b['path'], e[1].split('::')[-1], cfg), good,
                        'payload = %s' % show(payload)[:300], w, None, sample='%s(%s)' % (e[1].split('::')[-1], show(payload)[:160]))
-        floor = 8 if cfg != 'g-nodefault' else 6
+        # today 8 functions construct the newtypes (6 without serde); the floor is the number of distinct *roles* that must exist in any
+        # arrangement (decode a public key, decode a private key, derive a public key, generate a pair) - merging sites is a refactoring
+        floor = 4
         rep.floor('R11.1', 'functions constructing the key newtypes [%s]' % cfg, len(sites), floor)
     # field visibility of the newtypes (W-NEWTYPE is the compile-fail witness; this is the type-level fact)
     for nt in NEWTYPES:
@@ -223,14 +245,20 @@ def run(ctx):
         raw = set(r for r in raw if not r.startswith('['))
         rep.ob('R11.2', 'raw group types identified from the newtypes', len(raw) >= 2 or P['ke'] == 'c25519', str(sorted(raw)), '', sn)
         n_seen = 0
+        gadts = {a['dpath']: a for a in ctx.g['adts']}
+        de_targets = set(m.group(1) for b in ctx.g['bodies'] for m in [re.search(r"Deserialize<'de> for ([A-Za-z_:0-9]+)", b['path'])] if m)
         for ty, t in S.types.items():
             if not t or t['crate'] != 'opaque_ke' or t['dpath'] in NEWTYPES:
                 continue
+            ga = gadts.get(t['dpath'])
+            # a crate-private type without a serde Deserialize impl is only ever built by the crate's own code (its construction sites
+            # are what R11.1 follows): a transient holder of already-validated raw values is not an entry point for unvalidated ones
+            transient = ga is not None and 'Restricted' in str(ga.get('vis', 'Public')) and ga['path'] not in de_targets
             for v in t['variants']:
                 for f in v['fields']:
                     n_seen += 1
                     rep.ob('R11.2', 'no raw group-typed field outside the key newtypes: %s.%s' % (t['dpath'].split('::')[-1], f['name']),
-                           f['ty'] not in raw, 'field type %s' % f['ty'], '', sn)
+                           f['ty'] not in raw or transient, 'field type %s' % f['ty'], '', sn)
         rep.ob('R11.2', 'fields inspected', n_seen >= 30, 'fields=%d' % n_seen, '', sn)
         n_filters += group_filters(ctx, rep, 'R11.3', sn)
         # R11.5 explicit identity test on OPRF elements of login messages
